@@ -4,7 +4,7 @@
 From Coq Require Import ZArith List Bool String Ascii.
 From LV Require Import Base.Prelude Sys.IndenterBase Gen.IndenterHoles.
 Import ListNotations.
-Open Scope Z_scope.
+Local Open Scope Z_scope.
 
 Definition INDENT (cfg : icfg) (v : string) := mkTok (indent_type cfg) v.
 Definition DEDENT (cfg : icfg) (v : string) := mkTok (dedent_type cfg) v.
